@@ -13,8 +13,8 @@ PLAN = {
         vacuity=[("lit_finish_exit", ["FixRecv"])],
     ),
     "C02": dict(
-        quick=[("tree4", dict(cap=2500))],
-        thorough=["tree4", "tree5", ("tree6", dict(cap=20000, timeout=2400)), ("sim_tree", dict(cap=6000))],
+        quick=[("tree4", dict(cap=2500)), "ids:600"],
+        thorough=["tree4", "tree5", "ids:600", ("tree6", dict(cap=20000, timeout=2400)), ("sim_tree", dict(cap=6000))],
         vacuity=[("tree4", [], "skip-second-copy")],
     ),
     "C03": dict(
@@ -81,13 +81,13 @@ PLAN["C18"] = dict(
     thorough=[("time_tree4", dict(cap=2700)), ("time_lc5", dict(cap=4000)), ("time_att4", dict(cap=2200)), "lc_open", "scope_open"],
 )
 PLAN["C13"] = dict(
-    quick=["poll_fut_c", "poll_fut_d", "poll_eop", "poll_fut2_c"],
-    thorough=["poll_fut_c", "poll_fut_d", "poll_eop", "poll_fut2_c", "poll_fut6_c"],
+    quick=["poll_fut_c", "poll_fut_d", "poll_eop", "poll_fut2_c", "poll_under_lp"],
+    thorough=["poll_fut_c", "poll_fut_d", "poll_eop", "poll_fut2_c", "poll_fut6_c", "poll_under_lp"],
     vacuity=[("poll_fut_c", ["FixInSpan"])],
 )
 PLAN["C14"] = dict(
-    quick=["poll_str_c", "poll_snk_c", "poll_ss_d"],
-    thorough=["poll_str_c", "poll_snk_c", "poll_ss_d", "poll_ss6_c"],
+    quick=["poll_str_c", "poll_snk_c", "poll_ss_d", "poll_under_lp"],
+    thorough=["poll_str_c", "poll_snk_c", "poll_ss_d", "poll_ss6_c", "poll_under_lp"],
     vacuity=[("poll_str_c", ["FixInSpan"])],
 )
 PLAN["C16"] = dict(
